@@ -106,7 +106,7 @@ func (a *asm) push32(v *big.Int) *asm {
 	return a
 }
 
-func (a *asm) pushAddr(ad [20]byte) *asm {
+func (a *asm) pushAddr(ad address) *asm {
 	a.b = append(a.b, opPUSH20)
 	a.b = append(a.b, ad[:]...)
 	return a
@@ -254,7 +254,7 @@ var (
 	sentS2 = bigHex("fffefdfcfbfaf9f8f7f6f5f4f3f2f1f0efeeedecebeae9e8e7e6e5e4e3e2e1e0")
 )
 
-func addrBig(a [20]byte) *big.Int { return new(big.Int).SetBytes(a[:]) }
+func addrBig(a address) *big.Int { return new(big.Int).SetBytes(a[:]) }
 
 // epilogue makes the machine state observable: it returns
 // memory[0:64] ‖ top of stack ‖ MSIZE ‖ keccak(memory[0:MSIZE]).
@@ -277,20 +277,26 @@ func relayReturn(a *asm) {
 
 // ---------------------------------------------------------------- pre-states
 
-var calldataPattern = func() string {
+var calldataPattern = func() []byte {
 	b := []byte{0xa9, 0x05, 0x9c, 0xbb}
 	for i := 0; i < 64; i++ {
 		b = append(b, byte(0xf0-i*3))
 	}
-	return hexs(b)
+	return b
 }()
 
-func word(v uint64) string { return fmt.Sprintf("%064x", v) }
+var allOnes = func() word {
+	var w word
+	for i := range w {
+		w[i] = 0xff
+	}
+	return w
+}()
 
-var storageSet = [][2]string{
-	{word(0), word(7)},
-	{word(1), strings.Repeat("ff", 32)},
-	{word(32), word(0x20)},
+var storageSet = []slot{
+	{wordU(0), wordU(7)},
+	{wordU(1), allOnes},
+	{wordU(32), wordU(0x20)},
 }
 
 // ctxContract: code of the "code address" of family 1: reports its context and,
@@ -309,7 +315,7 @@ func ctxContract() []byte {
 }
 
 // forwarder: relay the call data to next with the given call opcode.
-func forwarder(callOp int, value uint64, next [20]byte, storeAfter bool) []byte {
+func forwarder(callOp int, value uint64, next address, storeAfter bool) []byte {
 	a := newAsm()
 	a.op(opCALLDATASIZE).pushU(0).pushU(0).op(opCALLDATACOPY)
 	a.pushU(0).pushU(0).op(opCALLDATASIZE).pushU(0)
@@ -499,21 +505,26 @@ func family1Programs(c int, fullArity3 bool) (progs []f1Prog, exhaustive bool) {
 	return progs, exhaustive
 }
 
+var (
+	ctxContractCode = ctxContract()
+	staticWrapCode  = forwarder(opSTATICCALL, 0, addrA, false)
+)
+
 func family1Case(p f1Prog, static bool, mode string) *txCase {
 	code := family1Code(p)
 	k := &txCase{Family: "opcode", Mode: mode, Input: calldataPattern}
 	k.Pre = []account{
-		{Addr: hexAddr(addrOrigin), Balance: 1000000, Nonce: 5},
-		{Addr: hexAddr(addrA), Balance: 1000, Nonce: 1, Code: hexs(code), Storage: storageSet},
-		{Addr: hexAddr(addrB), Balance: 7, Nonce: 1, Code: hexs(ctxContract())},
-		{Addr: hexAddr(addrF), Balance: 3},
+		{Addr: addrOrigin, Balance: 1000000, Nonce: 5},
+		{Addr: addrA, Balance: 1000, Nonce: 1, Code: code, Storage: storageSet},
+		{Addr: addrB, Balance: 7, Nonce: 1, Code: ctxContractCode},
+		{Addr: addrF, Balance: 3},
 	}
 	ctx := "direct"
-	k.To = hexAddr(addrA)
+	k.To = addrA
 	if static {
 		ctx = "static"
-		k.Pre = append(k.Pre, account{Addr: hexAddr(addrW), Balance: 9, Nonce: 1, Code: hexs(forwarder(opSTATICCALL, 0, addrA, false))})
-		k.To = hexAddr(addrW)
+		k.Pre = append(k.Pre, account{Addr: addrW, Balance: 9, Nonce: 1, Code: staticWrapCode})
+		k.To = addrW
 	}
 	v := p.Variant
 	if v == "" {
@@ -572,9 +583,9 @@ func family2Code(toks []int) []byte {
 	return a.bytes()
 }
 
-var family2Calldata = []string{
-	"",
-	word(5),
+var family2Calldata = [][]byte{
+	nil,
+	func() []byte { w := wordU(5); return w[:] }(),
 	calldataPattern,
 }
 
@@ -589,12 +600,12 @@ func family2Name(toks []int) string {
 // family2Case: variant = calldata index*2 + prestate index
 func family2Case(toks []int, variant int, mode string) *txCase {
 	cd, ps := variant/2, variant%2
-	k := &txCase{Family: "program", Mode: mode, Input: family2Calldata[cd], To: hexAddr(addrA), WorkLimit: workLimitShort}
-	a := account{Addr: hexAddr(addrA), Balance: 1000, Nonce: 1, Code: hexs(family2Code(toks))}
+	k := &txCase{Family: "program", Mode: mode, Input: family2Calldata[cd], To: addrA, WorkLimit: workLimitShort}
+	a := account{Addr: addrA, Balance: 1000, Nonce: 1, Code: family2Code(toks)}
 	if ps == 1 {
 		a.Storage = storageSet
 	}
-	k.Pre = []account{{Addr: hexAddr(addrOrigin), Balance: 1000000, Nonce: 5}, a}
+	k.Pre = []account{{Addr: addrOrigin, Balance: 1000000, Nonce: 5}, a}
 	k.Label = fmt.Sprintf("[%s] calldata#%d prestate#%d", family2Name(toks), cd, ps)
 	k.Sig = map[string]string{"family": "program", "config": mode, "static": "no"}
 	return k
